@@ -3,7 +3,7 @@
 # /root/.vp/BASELINE.json's stable_pass list passes (up to 3 attempts: the baseline itself has a
 # flaky test that can abort the root package's test binary).
 export GOFLAGS=-mod=mod GOPROXY=off GOSUMDB=off GOTOOLCHAIN=local
-cd /repo || exit 2
+cd "${REPO_DIR:-/repo}" || exit 2
 python3 - <<'PY'
 import json, subprocess, sys
 stable = set(json.load(open('/root/.vp/BASELINE.json'))['stable_pass'])
